@@ -1424,6 +1424,18 @@ def __analyse_function(
     test_cluster: ModuleTestCluster,
     add_to_test: bool,
 ) -> None:
+    if getattr(func, "__name__", None) == "<lambda>":
+        # A lambda is known by the name it is assigned to; resolve it first, because
+        # the visibility of the element is determined by that name.
+        if lambda_assigned_name := _get_lambda_assigned_name(
+            module_tree, func.__code__.co_firstlineno
+        ):
+            func_name = lambda_assigned_name
+            func.__name__ = lambda_assigned_name
+        else:
+            # If the lambda itself has no name, we must not add it to the test cluster
+            # or else it will cause an exception during test export.
+            return
     if __should_skip_by_visibility(func_name.rpartition(".")[2], add_to_test=add_to_test):
         LOGGER.debug("Skipping function %s from analysis", func_name)
         return
@@ -1449,16 +1461,6 @@ def __analyse_function(
     description = get_function_description(func_ast)
     expected_exceptions = description.raises if description is not None else set()
     cyclomatic_complexity = __get_mccabe_complexity(func_ast)
-    if getattr(func, "__name__", None) == "<lambda>":
-        if lambda_assigned_name := _get_lambda_assigned_name(
-            module_tree, func.__code__.co_firstlineno
-        ):
-            func_name = lambda_assigned_name
-            func.__name__ = lambda_assigned_name
-        else:
-            # If the lambda itself has no name, we must not add it to the test cluster
-            # or else it will cause an exception during test export.
-            return
 
     generic_function = GenericFunction(func, inferred_signature, expected_exceptions, func_name)
 
